@@ -304,6 +304,100 @@ func unitC11scripted(e common.Env, p *common.Part) {
 			p.Case(cs, true)
 			p.Count("precondition_cases", 1)
 		}
+		// a second Sign on a topic that is still live at the node is refused; the refusal must not wedge the first call (it returns at
+		// its deadline) nor any later call on that node
+		for mi, mode := range []string{"loud", "barrier", "silent"} {
+			for _, dupTopic := range []string{"same topic", "the key generation's topic name while a key generation runs"} {
+				cs := fmt.Sprintf("%s: refused duplicate (%s), then the first call's deadline, then further calls", mode, dupTopic)
+				p.Begin(cs)
+				ids := []uint16{1, 2, 3}
+				c := newRCluster(cluster.Config{Map: identityMap(ids...), Barrier: mode == "barrier", Silent: mode == "silent", Threshold: 2, Script: backend.Script{Rounds: []uint8{1}, Bcast: true}}, e.Rng("c11dup", mi), simnet.Uniform)
+				if mode == "silent" {
+					for _, t := range []string{"dup-topic", "later-topic", tss.DkgTopicName} {
+						c.SetPick(t, ids)
+					}
+				}
+				c.Schemes[1].SetStoredData([]byte("share-of-x"))
+				type ret struct {
+					what string
+					err  error
+				}
+				rets := make(chan ret, 8)
+				first, cancelFirst := context.WithTimeout(context.Background(), 300*time.Millisecond)
+				// only node 1 calls: its peers never show up, the call lives until its deadline
+				go func() {
+					var err error
+					if dupTopic == "same topic" {
+						_, err = c.Schemes[1].Sign(first, []byte("digest-0123456789abcdef0123456789"), "dup-topic")
+					} else {
+						_, err = c.Schemes[1].KeyGen(first, 3, 2)
+					}
+					rets <- ret{"the first call", err}
+				}()
+				time.Sleep(60 * time.Millisecond)
+				go func() {
+					c2, cn := context.WithTimeout(context.Background(), 100*time.Millisecond)
+					defer cn()
+					t := "dup-topic"
+					if dupTopic != "same topic" {
+						t = tss.DkgTopicName
+					}
+					_, err := c.Schemes[1].Sign(c2, []byte("digest-0123456789abcdef0123456789"), t)
+					rets <- ret{"the duplicate call", err}
+				}()
+				got := map[string]error{}
+				wait := func(n int, d time.Duration) bool {
+					deadline := time.After(d)
+					for len(got) < n {
+						select {
+						case r := <-rets:
+							got[r.what] = r.err
+						case <-deadline:
+							return false
+						}
+					}
+					return true
+				}
+				ok := wait(2, 10*time.Second)
+				if ok {
+					// later calls on the same node
+					go func() {
+						c3, cn := context.WithTimeout(context.Background(), 100*time.Millisecond)
+						defer cn()
+						_, err := c.Schemes[1].Sign(c3, []byte("digest-0123456789abcdef0123456789"), "later-topic")
+						rets <- ret{"a later Sign", err}
+					}()
+					go func() {
+						c4, cn := context.WithTimeout(context.Background(), 100*time.Millisecond)
+						defer cn()
+						_, err := c.Schemes[1].KeyGen(c4, 3, 2)
+						rets <- ret{"a later KeyGen", err}
+					}()
+					ok = wait(4, 10*time.Second)
+				}
+				cancelFirst()
+				if !ok {
+					var missing []string
+					for _, w := range []string{"the first call", "the duplicate call", "a later Sign", "a later KeyGen"} {
+						if _, seen := got[w]; !seen {
+							missing = append(missing, w)
+						}
+					}
+					p.Violate("hang/after-refused-duplicate", fmt.Sprintf("%s: %v had not returned 10 s after every context had ended", cs, missing), nil)
+				} else {
+					for w, err := range got {
+						if err == nil {
+							p.Violate("nil-error-with-failed-precondition", fmt.Sprintf("%s: %s returned nil although no peer took part", cs, w), nil)
+						} else {
+							p.Count("error_returns", 1)
+						}
+					}
+				}
+				c.Stop()
+				p.Case(cs, true)
+				p.Count("precondition_cases", 1)
+			}
+		}
 		// a context that is already over when the call is made (cancelled / deadline in the past), at all nodes or at one node only;
 		// unusable data at one node only. Every call returns an error (the nodes with a live context at their deadline).
 		idx := 0
